@@ -62,6 +62,13 @@ def scripted_programs(bpc):
          ["getsize", "/w/FULL.BIN"], ["open", "b", "/w/FULL.BIN", "r+"], ["write", "b", "58" * (bpc + 1)], ["hclose", "b"], ["create", "/w/FULL.BIN", 1],
          ["open", "c", "/ROOTFULL.BIN", "w"], ["write", "c", "59" * bpc], ["hclose", "c"], ["create", "/ROOTFULL.BIN", 1], ["create", "/ROOTFULL.BIN", 0],
          ["open", "d", "/w/other long name.bin", "w"], ["write", "d", "5a" * (3 * bpc)], ["hclose", "d"], ["listdir", "/w"]],
+        # removetree of the ROOT while it holds nothing but files (nothing after it rewrites the root), as the last operation (C03-m6: the
+        # per-file rewrite was left to the final removedir, which the root does not have)
+        [["create", "/R1.TXT"], ["open", "a", "/R2 long name.bin", "w"], ["write", "a", "52" * (bpc + 1)], ["hclose", "a"], ["create", "/R3.TXT"],
+         ["removetree", "/"], ["listdir", "/"]],
+        # ... and with sub-directories, followed by new entries
+        [["makedir", "/x"], ["create", "/x/in x.txt"], ["open", "a", "/TOP.BIN", "w"], ["write", "a", "54" * (2 * bpc)], ["hclose", "a"], ["makedir", "/x/y"],
+         ["removetree", "/"], ["listdir", "/"], ["create", "/after the flood.txt"], ["listdir", "/"]],
     ]
 
 
